@@ -442,7 +442,7 @@ MATCHERS = {'lookup_key_depends_on_own_column': _lookup_matcher}
 def correspond(ctx):
   """Recorded update loops of cyclic documents without try/except, replayed by the model (as C06)."""
   cases = K2.traced_cases(ctx, ctx.n(35, 600), p_try=0.0)
-  for term, info, st, _strict in cases:
+  for term, info, st, _strict, _edges in cases:
     nontrivial = bool(st.get('cycle'))
     ctx.count(term, nontrivial=nontrivial, sample=info if nontrivial else None,
               kind='tie:' + ('cycle' if st.get('cycle') else 'reorder' if st.get('need') else 'plain'))
